@@ -152,3 +152,6 @@ package lastgersync
 //@   ensures[candidates-are-the-leaves-from-the-index-on-in-order] (result1 == nil && result0 != nil) ==> len(result0) == l1LastIndex - fromL1InfoTreeIndex + 1 && forall(k, 0, len(result0), result0[k] != nil && result0[k].L1InfoTreeIndex == fromL1InfoTreeIndex + k && result0[k].GlobalExitRoot == l1GerAt(fromL1InfoTreeIndex + k))
 //@   loop 0 invariant d != nil && d.l1InfoTreeSync != nil && fromL1InfoTreeIndex <= i && i <= lastRoot.Index + 1 && lastRoot.Index == l1LastIndex && len(gers) == i - fromL1InfoTreeIndex && off(gers) == 0 && ref(gers) != 0
 //@   loop 0 invariant forall(k, 0, len(gers), gers[k] != nil && gers[k].L1InfoTreeIndex == fromL1InfoTreeIndex + k && gers[k].GlobalExitRoot == l1GerAt(fromL1InfoTreeIndex + k))
+
+// schema clause the reorg semantics and the one-event-per-block assumption rest on (C04, C16; A5), pinned
+//@ filepin C04,C16 migrations/lastgersync0001.sql "CREATE TABLE imported_global_exit_root ( block_num INTEGER PRIMARY KEY REFERENCES block(num) ON DELETE CASCADE,"
